@@ -15,6 +15,7 @@ type FuncInfo struct {
 	facts   [][]Fact  // must-facts at block entry
 	factsOK bool
 	stores  map[ssa.Value][]*ssa.Store // alloc/freevar -> stores (lazily)
+	partStores map[ssa.Value][]*ssa.Store // alloc -> stores to a field/element of it
 }
 
 type cdEdge struct {
@@ -234,7 +235,7 @@ func (q pathQuery) search() []ssa.Instruction {
 				}
 				return path
 			}
-			if q.Barrier != nil && q.Barrier(in) {
+			if q.Barrier != nil && q.Barrier(in) || noReturnCall(in) {
 				blocked = true
 				break
 			}
@@ -252,6 +253,50 @@ func (q pathQuery) search() []ssa.Instruction {
 	return nil
 }
 
+// noReturnCall: calls that never return (process exit). go/ssa ends blocks at
+// panic() but not at these; treating them as terminators is what makes
+// `if dup { logger.Fatalf(...) }` a guard.
+func noReturnCall(in ssa.Instruction) bool {
+	c, ok := in.(*ssa.Call)
+	if !ok {
+		return false
+	}
+	f := calleeFunc(&c.Call)
+	if f == nil {
+		return false
+	}
+	p, n := funcQual(f)
+	switch p {
+	case "os":
+		return n == "Exit"
+	case "log":
+		return n == "Fatal" || n == "Fatalf" || n == "Fatalln" || n == "Logger.Fatal" || n == "Logger.Fatalf" || n == "Logger.Fatalln"
+	case modPath + "/grpclog", modPath + "/grpclog/internal", modPath + "/internal/grpclog":
+		switch f.Name() {
+		case "Fatal", "Fatalf", "Fatalln", "FatalDepth":
+			return true
+		}
+	}
+	return false
+}
+
+var noRetCache = map[*ssa.BasicBlock]int{}
+
+func blockNoReturn(b *ssa.BasicBlock) bool {
+	if v, ok := noRetCache[b]; ok {
+		return v == 1
+	}
+	r := 2
+	for _, in := range b.Instrs {
+		if noReturnCall(in) {
+			r = 1
+			break
+		}
+	}
+	noRetCache[b] = r
+	return r == 1
+}
+
 // reachableBlocks returns the set of blocks reachable from b (inclusive).
 func reachableBlocks(b *ssa.BasicBlock) map[*ssa.BasicBlock]bool {
 	seen := map[*ssa.BasicBlock]bool{}
@@ -261,6 +306,9 @@ func reachableBlocks(b *ssa.BasicBlock) map[*ssa.BasicBlock]bool {
 			return
 		}
 		seen[x] = true
+		if blockNoReturn(x) {
+			return
+		}
 		for _, s := range x.Succs {
 			walk(s)
 		}
